@@ -314,9 +314,10 @@ def _safe_remove(el: etree.Element):
 
 def _id_of_target(url):
     # <funciri> as CSS writes it: optional white space and quotes around the
-    # reference, any id that XML allows, an optional fallback after it
+    # reference, any id that XML allows, an optional fallback after it (which
+    # needs no white space in front: url(#a)red)
     match = re.match(
-        r"""^\s*url[(]\s*(['"]?)#([^)'"\s]+)\1\s*[)](?:\s.*)?$""", url, re.DOTALL
+        r"""^\s*url[(]\s*(['"]?)#([^)'"\s]+)\1\s*[)].*$""", url, re.DOTALL
     )
     if not match:
         raise ValueError(f'Unrecognized url "{url}"')
